@@ -40,6 +40,7 @@ WITNESS = {
   # thorough-tier exploration without a unit of its own (registry: 'thorough_witness')
   'parser_terminates': ('samlang-parser', 'crates/samlang-parser/src/lib.rs', 'wx/witness/samlang_parser_lib.rs', 'verif_witness_search_parser_terminates'),
   'parsetok': ('samlang-parser', 'crates/samlang-parser/src/lib.rs', 'wx/witness/samlang_parser_lib.rs', 'verif_witness_search_import_ranges'),
+  'prodloc': ('samlang-parser', 'crates/samlang-parser/src/lib.rs', 'wx/witness/samlang_parser_lib.rs', 'verif_witness_search_type_parameter_ranges'),
   'depgraph': ('samlang-services', 'crates/samlang-services/src/dep_graph.rs', 'wx/witness/samlang_services_dep_graph.rs', 'verif_witness_search'),
 }
 
